@@ -15,6 +15,61 @@ from .sarray import (SymArray, FakeDtype, PartView, real_dtype, wrap, to_object_
                     sym_array, _guess, _hygiene)
 
 
+class SymVectorize(object):
+    """numpy.vectorize re-stated so that the Python function may return symbols: the function is applied to every
+    broadcast element (numpy.frompyfunc does that part for real); the output type is ``otypes`` when set, otherwise
+    that of the first output, and all outputs are cast to it -- as numpy.vectorize does."""
+
+    def __init__(self, pyfunc, otypes=None, doc=None, excluded=None, cache=False, signature=None):
+        if excluded or signature is not None:
+            raise EngineGap('numpy.vectorize with excluded/signature')
+        self.pyfunc = pyfunc
+        self.otypes = otypes
+        self.__doc__ = doc if doc is not None else getattr(pyfunc, '__doc__', None)
+
+    def _ochar(self):
+        ot = self.otypes
+        if ot is None:
+            return None
+        if isinstance(ot, str):
+            chars = ot
+        else:
+            chars = ''.join(real_dtype(x).char for x in ot)
+        if len(chars) != 1:
+            if len(chars) == 0:
+                return None
+            raise EngineGap('numpy.vectorize with several outputs')
+        return chars
+
+    def __call__(self, *args, **kwargs):
+        _used('np.vectorize')
+        arrs = [to_object_array(a) if is_sym(a) else np.asanyarray(a, dtype=object) for a in args]
+        f = (lambda *a: self.pyfunc(*a, **kwargs)) if kwargs else self.pyfunc
+        ch = self._ochar()
+        if ch is None and any(a.size == 0 for a in arrs):
+            raise ValueError('cannot call `vectorize` on size 0 inputs unless `otypes` is set')
+        res = np.frompyfunc(f, len(arrs), 1)(*arrs)
+        if not isinstance(res, np.ndarray):
+            r0 = np.empty((), dtype=object)
+            r0[()] = res
+            res = r0
+        first = res.flat[0] if res.size else None
+        if isinstance(first, tuple):
+            raise EngineGap('numpy.vectorize with several outputs')
+        if ch is None:
+            if isinstance(first, SC):
+                ch = 'D'
+            elif isinstance(first, SD) or (isinstance(first, SV) and first.t.sort != T.Z):
+                ch = 'd'
+            elif isinstance(first, SV):
+                ch = 'l'
+            else:
+                ch = np.asarray(first).dtype.char
+        if any(is_symscalar(v) for v in res.ravel()):
+            return wrap(res).astype(np.dtype(ch))
+        return np.asanyarray(res, dtype=ch)
+
+
 class State(object):
     armed = False        # creation functions build symbolic arrays
     int_mode = False     # integer dtypes are symbolic too (Z-mode)
@@ -135,7 +190,7 @@ class NPProxy(object):
                 raise
             except TypeError as e:
                 raise EngineGap('numpy.%s on symbolic data: %s' % (n, e))
-            return _rewrap_result(r, claimed)
+            return _rewrap_result(r, claimed, keep0d=n in _SHAPE_ONLY)
         wrapper.__name__ = n
         return wrapper
 
@@ -401,6 +456,10 @@ class NPProxy(object):
         return self._r.arange(*a, **k)
 
     # ---------------------------------------------------------- C-only leaves
+    @property
+    def vectorize(self):
+        return SymVectorize
+
     def searchsorted(self, a, v, side='left', sorter=None):
         if is_sym(a) or is_sym(v):
             _used('np.searchsorted')
@@ -510,8 +569,18 @@ class NPProxy(object):
         return self._r.may_share_memory(a, b, *args)
 
 
-def _rewrap_result(r, claimed):
+_SHAPE_ONLY = ('squeeze', 'reshape', 'broadcast_to', 'atleast_1d', 'transpose', 'copy', 'ascontiguousarray')
+
+
+def _rewrap_result(r, claimed, keep0d=False):
     if isinstance(r, np.ndarray):
+        if keep0d and r.ndim == 0 and r.dtype == object:
+            r = r.view(SymArray)
+            if claimed is not None:
+                r._fake = claimed if isinstance(claimed, FakeDtype) else FakeDtype(claimed)
+            elif r._fake is None:
+                r._fake = FakeDtype(_guess(r))
+            return r
         if r.dtype == object and not isinstance(r, SymArray):
             if r.ndim == 0:
                 return r[()]
